@@ -436,11 +436,10 @@ def run(ctx):
             pairs.append((tuple(c["a"]), tuple(c["b"]), c.get("flag", 0)))
         bn = boundary_numbers()
         allp = [(x, y) for x in bn for y in bn]
-        if tier == "quick":
-            allp = rng.sample(allp, 220)
+        allp = rng.sample(allp, 220 if tier == "quick" else 3000)
         for x, y in allp:
             pairs.append((x, y, rng.getrandbits(2)))
-        n = 560 if tier == "quick" else 30000
+        n = 560 if tier == "quick" else 6000
         for _ in range(n):
             a, b = gen_pair(rng)
             pairs.append((a, b, rng.getrandbits(2)))
@@ -544,7 +543,7 @@ def run(ctx):
         "evaluations": len(cases) * 5,
         "pairs": len(cases),
         "distinct_nontrivial": len(distinct),
-        "rule": "ordered pairs of numbers (int / rational / double-by-bits) built from boundary values (2^k±3 for k in 24..1100, the overflow threshold 2^1024-2^970, subnormals, the underflow threshold 2^-1075), rounding-critical tails below the 53rd bit, huge numerators/denominators, and neighbours of the first operand in every representation (same value, 1 ulp off, off by one, halfway to the next double, a relative 2^-80 off); plus (thorough: all / quick: 220 sampled) pairs over %d boundary numbers. Each pair is evaluated in 5 contexts x 12 comparisons. non-trivial = not both operands small fixnums; distinct by operand pair" % len(boundary_numbers()),
+        "rule": "ordered pairs of numbers (int / rational / double-by-bits) built from boundary values (2^k±3 for k in 24..1100, the overflow threshold 2^1024-2^970, subnormals, the underflow threshold 2^-1075), rounding-critical tails below the 53rd bit, huge numerators/denominators, and neighbours of the first operand in every representation (same value, 1 ulp off, off by one, halfway to the next double, a relative 2^-80 off); plus (thorough: 3000 / quick: 220 sampled) pairs over %d boundary numbers. Each pair is evaluated in 5 contexts x 12 comparisons. non-trivial = not both operands small fixnums; distinct by operand pair" % len(boundary_numbers()),
         "samples": [c["prolog"] for c in cases[:3]] + [c["prolog"] for c in cases[-3:]],
         "traces_validated_against_impl": agree,
         "disagreements_checked": len(cases) - agree,
